@@ -10,17 +10,20 @@ The model follows the code statement by statement, *in the code's order*: every 
 connection **as it is at the moment of the return**, so a mutation performed before a failing check
 is visible in the result of the failing call.
 
-Not modelled (environment, assumed not to fail): socket binding, ICE gathering / start, transport
-attachment, receivers/senders/SSRC bookkeeping, events.  The content of a description produced by
+Environment: the one environment event that is modelled is "every UDP socket bind fails"
+(`Pc.bindFails`, constant during a run), because the direct modes bind sockets inside the signaling
+calls and return the bind error AFTER having applied the description.  Not modelled: ICE gathering
+details, transport attachment, receivers/senders/SSRC bookkeeping, events.  The content of a description produced by
 `create_offer` / `create_answer` is C08's subject; here only their effect on the connection
 (mid assignment, mid counter) and their result class are modelled.
 
 Core Lean only (linked into `rtcdrv`).
 -/
 import RtcModel.Base.C08Text
+import RtcModel.Generated.Consts
 
 namespace RtcModel.Jsep
-open RtcModel.Text
+open RtcModel.Text RtcModel.Generated
 
 inductive SigState | stable | haveLocalOffer | haveRemoteOffer | closed
 deriving DecidableEq, Repr, Inhabited
@@ -64,6 +67,9 @@ structure Section where
   formats : List Str
   rtpmaps : List Str         -- values of the `a=rtpmap` attributes, in order
   extmaps : List Str         -- values of the `a=extmap` attributes, in order
+  addr4 : Bool := false      -- the section (or session) `c=` line is `IN IP4 <parsable address>`
+                             -- (test in the section loop of `set_remote_description`)
+  addrAny : Bool := false    -- `remote_rtp_addr_from_section(..).is_some()` (IP4 or IP6)
 deriving DecidableEq, Repr
 
 /-- Result of `desc.dtls_fingerprint()` + the algorithm test at the top of `set_remote_description`. -/
@@ -83,6 +89,7 @@ structure Desc where
   eqKey : Nat
   fp : Fp
   sections : List Section
+  groups : List (Option Str) := []   -- values of the session-level `a=group` attributes, in order
 deriving DecidableEq, Repr
 
 structure Trx where
@@ -103,11 +110,16 @@ structure Pc where
   nextMid : Nat              -- `AtomicU16`
   dtlsStarted : Bool         -- `dtls_transport.is_some()`
   remoteFp : Option Nat      -- `remote_dtls_fingerprint`
+  bindFails : Bool := false  -- ENVIRONMENT: every UDP socket bind fails (unusable `bind_ip`,
+                             -- exhausted port range / descriptors); constant during a run
 deriving DecidableEq, Repr
 
-def Pc.new (mode : Mode) : Pc :=
+def Pc.new (mode : Mode) (bindFails : Bool := false) : Pc :=
   { mode, sig := .stable, peerClosed := false, loc := none, rem := none, trxs := [], nextMid := 0,
-    dtlsStarted := false, remoteFp := none }
+    dtlsStarted := false, remoteFp := none, bindFails }
+
+/-- the direct (non-ICE) modes bind their RTP sockets synchronously inside the signaling calls -/
+def Pc.bindsInline (pc : Pc) : Bool := pc.mode = .rtp || pc.mode = .srtp
 
 /-! ### sorted maps (content of the two `HashMap`s) -/
 
@@ -129,10 +141,10 @@ def insertExt (e : Nat × Str) : List (Nat × Str) → List (Nat × Str)
 
 /-- `iana_static_rtp_params` -/
 def ianaStatic (pt : Nat) : Option Codec :=
-  if pt = 0 then some ⟨0, "PCMU".toList, 8000, 1⟩
-  else if pt = 8 then some ⟨8, "PCMA".toList, 8000, 1⟩
-  else if pt = 9 then some ⟨9, "G722".toList, 8000, 1⟩
-  else if pt = 18 then some ⟨18, "G729".toList, 8000, 1⟩
+  if pt = ianaPtPcmu then some ⟨ianaPtPcmu, "PCMU".toList, ianaClockG729, 1⟩
+  else if pt = ianaPtPcma then some ⟨ianaPtPcma, "PCMA".toList, ianaClockG729, 1⟩
+  else if pt = ianaPtG722 then some ⟨ianaPtG722, "G722".toList, ianaClockG729, 1⟩
+  else if pt = ianaPtG729 then some ⟨ianaPtG729, "G729".toList, ianaClockG729, 1⟩
   else none
 
 /-- one `a=rtpmap:<value>`: `"96 opus/48000/2"` -/
@@ -143,7 +155,7 @@ def rtpmapCodec (v : Str) : Option Codec :=
     | some pt =>
       match splitOn '/' p1 with
       | name :: clk :: rest =>
-        let clock := (parseU32 clk).getD 90000
+        let clock := (parseU32 clk).getD rtpmapDefaultClock
         let channels := match rest with
           | ch :: _ => (parseU8 ch).getD 0
           | [] => 0
@@ -353,6 +365,45 @@ def applyRemote (pc : Pc) (d : Desc) : Pc :=
   | .answer | .pranswer => { pc with trxs := applyMatched pc.trxs (matchRtp pc.trxs d.sections) }
   | .rollback => pc
 
+/-- `sdp_has_bundle` -/
+def hasBundle (d : Desc) : Bool :=
+  d.groups.any fun g => match g with | some v => startsWith v "BUNDLE".toList | none => false
+
+/-- `bundle_tag_mid`: looks at the FIRST `a=group` attribute only -/
+def bundleTag (d : Desc) : Option Str :=
+  match d.groups with
+  | some v :: _ =>
+    match splitWs v with
+    | t :: rest => if t = "BUNDLE".toList then rest.head? else none
+    | [] => none
+  | _ => none
+
+/-- does `configure_rtp_media_transports_from_remote` reach a socket bind? (RTP mode, no local
+candidates yet) -/
+def rtpConfigureBinds (ts : List Trx) (d : Desc) : Bool :=
+  let matched := matchRtp ts d.sections
+  if matched.isEmpty then false
+  else if hasBundle d then
+    let byTag := match bundleTag d with
+      | some mid => matched.find? (fun p => p.2.mid = mid)
+      | none => none
+    let primary := match byTag with | some p => some p | none => matched.head?
+    match primary with
+    | some p => p.2.addrAny
+    | none => false
+  else matched.any (fun p => p.2.addrAny)
+
+/-- Rest of `set_remote_description` after the fingerprint has been cached: start the transport
+(SDES-SRTP: `start_direct`), apply the sections to the transceivers, store the description,
+configure the RTP media transports (RTP mode). The two transport steps are where a failing socket
+layer surfaces — after the state transition, and for RTP mode after everything was applied. -/
+def remoteTail (pc4 : Pc) (d : Desc) : Pc × Res :=
+  if pc4.bindFails && pc4.mode = .srtp && d.sections.any (·.addr4) then (pc4, .err .internal) else
+  let pc5 := applyRemote pc4 d
+  let pc6 := { pc5 with rem := some d }
+  if pc6.bindFails && pc6.mode = .rtp && rtpConfigureBinds pc6.trxs d then (pc6, .err .internal) else
+  (pc6, .ok)
+
 def setRemote (pc : Pc) (d : Desc) : Pc × Res :=
   match validateType d.ty with
   | some e => (pc, .err e)
@@ -375,9 +426,7 @@ def setRemote (pc : Pc) (d : Desc) : Pc × Res :=
   if pc.rem.isSome && !changed then ({ pc3 with rem := some d }, .ok) else
   -- the original (late) check is still in the code
   if fpChanged pc3 fp then (pc3, .err .invalidState) else
-  let pc4 := { pc3 with remoteFp := fp }
-  let pc5 := applyRemote pc4 d
-  ({ pc5 with rem := some d }, .ok)
+  remoteTail { pc3 with remoteFp := fp } d
 
 /-! ### `create_offer` / `create_answer` (effects on the connection) -/
 
@@ -395,7 +444,9 @@ def createOffer (pc : Pc) : Pc × Res :=
   else if pc.trxs.isEmpty then (pc, .err .invalidState)
   else
     let r := (List.range pc.trxs.length).foldl ensureMid (pc.trxs, pc.nextMid)
-    ({ pc with trxs := r.1, nextMid := r.2 }, .ok)
+    let pc' := { pc with trxs := r.1, nextMid := r.2 }
+    -- `setup_direct_rtp_offer_with_rtcp` for the first section (direct modes)
+    if pc.bindFails && pc.bindsInline then (pc', .err .internal) else (pc', .ok)
 
 /-- section → transceiver matching of `build_description(Answer)`; `none` = "No transceiver found" -/
 def answerOrder (ts : List Trx) : List Section → List Nat → List Nat → Option (List Nat)
@@ -417,8 +468,16 @@ def createAnswer (pc : Pc) : Pc × Res :=
       match answerOrder pc.trxs r.sections [] [] with
       | none => (pc, .err .internal)
       | some order =>
-        let st := order.foldl ensureMid (pc.trxs, pc.nextMid)
-        ({ pc with trxs := st.1, nextMid := st.2 }, .ok)
+        if pc.bindFails && pc.bindsInline then
+          -- the section loop stops at the first section: its mid is ensured, then the bind fails
+          match order with
+          | [] => (pc, .ok)
+          | i :: _ =>
+            let st := ensureMid (pc.trxs, pc.nextMid) i
+            ({ pc with trxs := st.1, nextMid := st.2 }, .err .internal)
+        else
+          let st := order.foldl ensureMid (pc.trxs, pc.nextMid)
+          ({ pc with trxs := st.1, nextMid := st.2 }, .ok)
 
 /-! ### `close`, setup operations, the step function -/
 
@@ -490,9 +549,7 @@ def setRemote (pc : Pc) (d : Desc) : Pc × Res :=
   let pc3 := { pc2 with sig := s' }
   if pc.rem.isSome && !changed then ({ pc3 with rem := some d }, .ok) else
   if fpChanged pc3 fp then (pc3, .err .invalidState) else
-  let pc4 := { pc3 with remoteFp := fp }
-  let pc5 := applyRemote pc4 d
-  ({ pc5 with rem := some d }, .ok)
+  remoteTail { pc3 with remoteFp := fp } d
 
 end Legacy
 
